@@ -2822,3 +2822,10 @@ QUERIES["C09"] = QUERIES.get("C09", []) + QUERIES_C09
 from queries_recid import QUERIES_RECID  # noqa: E402
 for _p in ("C09", "C10"):
     QUERIES[_p] = QUERIES.get(_p, []) + QUERIES_RECID
+
+
+# ------------------------------------------------------------------------------------------------
+# C10: the session state machines (acceptor / initiator) executed on every frame script
+# ------------------------------------------------------------------------------------------------
+from queries_c10 import QUERIES_C10  # noqa: E402
+QUERIES["C10"] = QUERIES.get("C10", []) + QUERIES_C10
